@@ -688,7 +688,7 @@ func (st *Runtime) evalPrimaryExpressionGroup(node Expression) reflect.Value {
 		node := node.(*CallExprNode)
 		baseExpr := st.evalBaseExpressionGroup(node.BaseExpr)
 		if baseExpr.Kind() != reflect.Func {
-			node.errorf("node %q is not func kind %q", node.BaseExpr, baseExpr.Type())
+			node.errorf("node %q is not func kind %q", node.BaseExpr, getTypeString(baseExpr))
 		}
 		ret, err := st.evalCallExpression(baseExpr, node.CallArgs)
 		if err != nil {
@@ -1237,6 +1237,9 @@ func (st *Runtime) evalPipeCallExpression(baseExpr reflect.Value, args CallArgs,
 
 func (st *Runtime) evalCommandExpression(node *CommandNode) (reflect.Value, bool) {
 	term := st.evalPrimaryExpressionGroup(node.BaseExpr)
+	if !term.IsValid() && node.Exprs != nil {
+		node.BaseExpr.errorf("command %q has arguments but is nil, not a function", node.BaseExpr)
+	}
 	if term.IsValid() && node.Exprs != nil {
 		if term.Kind() == reflect.Func {
 			if term.Type() == safeWriterType {
@@ -1249,7 +1252,7 @@ func (st *Runtime) evalCommandExpression(node *CommandNode) (reflect.Value, bool
 			}
 			return ret, false
 		}
-		node.Exprs[0].errorf("command %q has arguments but is %s, not a function", node.Exprs[0], term.Type())
+		node.BaseExpr.errorf("command %q has arguments but is %s, not a function", node.BaseExpr, term.Type())
 	}
 	return term, false
 }
